@@ -183,3 +183,136 @@ void fromf(Rng& rng)
         VH_RUN(A{f}, print_sn)
     }
 }
+
+
+// ---------------------------------------------------------------------------------------------
+// shifts: `C11 shift <shl|shr> <mode> <tag> <D> <E|i> <count kind> <x> <k>`
+// E = i: a bare static_integer<D>; count kinds: int (built-in run-time count), si (a static_integer count),
+// const (cnl::constant<k>), aint / aconst (compound assignment with a run-time / constant count)
+
+template<class T>
+T mk_any(I v)
+{
+    if constexpr (requires { _impl::tag_of_t<T>::exponent; }) {
+        return mk_sn<T, 0>(v);
+    } else {
+        using EL = _impl::rep_of_t<T>;
+        using RD = _impl::rep_of_t<EL>;
+        using WD = _impl::rep_of_t<RD>;
+        using BI = _impl::rep_of_t<WD>;
+        return _impl::from_rep<T>(_impl::from_rep<EL>(_impl::from_rep<RD>(_impl::from_rep<WD>(BI(v)))));
+    }
+}
+
+template<class R, class O, int D, int E, bool Bare>
+using shift_lhs_t = std::conditional_t<Bare, static_integer<D, R, O>, static_number<D, E, R, O>>;
+
+template<class R, class O, int D, int E, bool Bare>
+void shead(char const* op, char const* ck, I x, long long k)
+{
+    printf("C11 shift %s %s %s %d ", op, TagN<R>::name().c_str(), TagN<O>::name().c_str(), D);
+    if (Bare)
+        fputs("i ", stdout);
+    else
+        printf("%d ", E);
+    printf("%s ", ck);
+    pri(x);
+    printf(" %lld => ", k);
+}
+
+// operand values: the declared limits, +-2^j for every j (x = -2^(D-k) with count k is the pattern of the
+// repaired defect), their neighbours, and seeded random values
+template<int D>
+std::vector<I> shvals(Rng& rng, int nrand)
+{
+    std::vector<I> v = snvals<D>(rng, nrand);
+    I hi = (I(1) << D) - 1;
+    auto add = [&](I x) {
+        if (x < -hi || x > hi) return;
+        for (I y : v)
+            if (y == x) return;
+        v.push_back(x);
+    };
+    for (int j = 0; j < D; ++j) {
+        I p = I(1) << j;
+        add(p);
+        add(-p);
+        if (j < 3 || j > D - 4 || j % 5 == 0) {
+            add(p + 1);
+            add(-p - 1);
+            add(p - 1);
+            add(-p + 1);
+            add(3 * (p / 2));
+            add(-3 * (p / 2));
+        }
+    }
+    return v;
+}
+
+template<int D>
+std::vector<int> shcounts(Rng& rng)
+{
+    constexpr int W = D <= 31 ? 32 : D <= 63 ? 64 : 128;  // width of the storage type
+    std::vector<int> k = {0, 1, 2, 3, D / 2, D - 2, D - 1, D, D + 1, D + 2, W - 2, W - 1, W, W + 1, 2 * W - 1, 2 * W, 1000, 2147483647};
+    for (int i = 0; i < 3; ++i) k.push_back(1 + rng.below(D + 2));
+    std::vector<int> out;
+    for (int c : k) {
+        if (c < 0) continue;
+        bool dup = false;
+        for (int o : out) dup |= o == c;
+        if (!dup) out.push_back(c);
+    }
+    return out;
+}
+
+// run-time counts; CD = digits of the static_integer count
+template<class R, class O, int D, int E, bool Bare, int CD>
+void shifts(Rng& rng)
+{
+    using T = shift_lhs_t<R, O, D, E, Bare>;
+    using CT = static_integer<CD, R, O>;
+    auto xv = shvals<D>(rng, 4 * scale_from_env());
+    auto kv = shcounts<D>(rng);
+    for (I a : xv) {
+        // every count that lands |a| on the limit: a * 2^k around 2^D
+        std::vector<int> ks = kv;
+        {
+            I m = a < 0 ? -a : a;
+            int len = 0;
+            while (m) { ++len; m >>= 1; }
+            for (int c : {D - len - 1, D - len, D - len + 1, D - len + 2})
+                if (c >= 0) ks.push_back(c);
+        }
+        for (int k : ks) {
+            T x = mk_any<T>(a);
+            { shead<R, O, D, E, Bare>("shl", "int", a, k); VH_RUN(x << k, print_sn) }
+            { shead<R, O, D, E, Bare>("shr", "int", a, k); VH_RUN(x >> k, print_sn) }
+            if (CD < 62 ? (long long)k <= (1LL << CD) - 1 : true) {
+                CT n = mk_any<CT>(I(k));
+                { shead<R, O, D, E, Bare>("shl", "si", a, k); VH_RUN(x << n, print_sn) }
+                { shead<R, O, D, E, Bare>("shr", "si", a, k); VH_RUN(x >> n, print_sn) }
+            }
+            { shead<R, O, D, E, Bare>("shl", "aint", a, k); VH_RUN(([&] { T y = x; y <<= k; return y; }()), print_sn) }
+            { shead<R, O, D, E, Bare>("shr", "aint", a, k); VH_RUN(([&] { T y = x; y >>= k; return y; }()), print_sn) }
+        }
+    }
+}
+
+// cnl::constant<K> counts (K < 0 only for static_number, where the exponent moves)
+template<class R, class O, int D, int E, bool Bare, int K>
+void cshift(Rng& rng)
+{
+    using T = shift_lhs_t<R, O, D, E, Bare>;
+    auto xv = shvals<D>(rng, 4 * scale_from_env());
+    for (I a : xv) {
+        T x = mk_any<T>(a);
+        if constexpr (!Bare || (K >= 0 && D + K <= 120)) {
+            { shead<R, O, D, E, Bare>("shl", "const", a, K); VH_RUN(x << constant<K>{}, print_sn) }
+            { shead<R, O, D, E, Bare>("shl", "aconst", a, K); VH_RUN(([&] { T y = x; y <<= constant<K>{}; return y; }()), print_sn) }
+        }
+        if constexpr (!Bare || (K >= 0 && K <= D)) {
+            { shead<R, O, D, E, Bare>("shr", "const", a, K); VH_RUN(x >> constant<K>{}, print_sn) }
+            { shead<R, O, D, E, Bare>("shr", "aconst", a, K); VH_RUN(([&] { T y = x; y >>= constant<K>{}; return y; }()), print_sn) }
+        }
+    }
+}
